@@ -1165,3 +1165,75 @@ def clause_default_wrappers(ctx):
     rets_ok = all(isinstance(f.body[-1], ast.Return) for f in (im, ir))
     ctx.check(rets_ok, gw, "wrappers return the computed value",
               "a default wrapper does not return its result")
+
+
+def clause_upper_bound_agreement(ctx, who="hash"):
+    """With the plateau search on, the lower range bound is a documented
+    don't-care.  The fit takes max(range_x) as upper bound; the hash and
+    FitProperties.__setitem__ must key on the same function of range_x,
+    otherwise an inverted request changes the fit without changing the hash
+    (or is ignored)."""
+    mod = ctx.repo.mod("fit")
+    L = FitLoopFacts(ctx.repo)
+    br = L.branch(lambda t: t == "self.optimal_fit_edelta")
+    if br is None:
+        raise AnchorError("fit() has no plateau-search branch")
+    ra = [s for s in br.body if isinstance(s, ast.Assign)
+          and norm(s.targets[0]) == "self.range_x"
+          and isinstance(s.value, (ast.List, ast.Tuple))
+          and len(s.value.elts) == 2]
+    if not ra:
+        raise Undecided("final range of the plateau search not found")
+    used = norm(ra[-1].value.elts[1])
+
+    def kind(text):
+        t = text.replace(" ", "")
+        if t.startswith(("np.max(", "max(", "np.amax(")):
+            return "max"
+        if t.endswith("[1]"):
+            return "index1"
+        return "?"
+    if who == "hash":
+        fn = mod.func("IndentationFitter._hash")
+        exprs = []
+        for n in ast.walk(fn):
+            if isinstance(n, ast.Call) and isinstance(n.func, ast.Attribute) \
+                    and n.func.attr == "append" and n.args:
+                conds = conditions_at(n)
+                if any(a.pol and a.text == "key == 'range_x'"
+                       for a in conds) and any(
+                           a.pol and "optimal_fit_edelta" in a.text
+                           for a in conds):
+                    exprs.append(n.args[0])
+        if not exprs:
+            raise Undecided("partial hash of range_x not found")
+        for e in exprs:
+            ctx.check(kind(norm(e)) == kind(used), e,
+                      f"hash keys range_x on {norm(e)}; the fit uses {used}",
+                      f"with the plateau search on, the hash covers "
+                      f"`{norm(e)}` but the fit uses `{used}` as upper "
+                      "bound: for an inverted range (upper bound first) two "
+                      "requests with different effective upper bounds have "
+                      "the same hash")
+    else:
+        fn = mod.func("FitProperties.__setitem__")
+        rets = [r for r in walk_no_nested(fn, False)
+                if isinstance(r, ast.Return)]
+        found = False
+        for r in rets:
+            for a in conditions_at(r):
+                n = a.node
+                if a.pol and isinstance(n, ast.Compare) and isinstance(
+                        n.ops[0], ast.Eq) and "range_x" in norm(n.left) \
+                        and not isinstance(n.comparators[0], ast.Constant):
+                    found = True
+                    ctx.check(kind(norm(n.left)) == kind(used), n,
+                              f"don't-care keyed on {norm(n)}; the fit uses "
+                              f"{used}",
+                              f"with the plateau search on, a new range is "
+                              f"ignored when `{norm(n)}`, but the fit uses "
+                              f"`{used}` as upper bound: an inverted request "
+                              "with a new upper bound is silently dropped "
+                              "by the fitter")
+        if not found:
+            raise Undecided("don't-care comparison of range_x not found")
